@@ -93,10 +93,32 @@ func execXO(o *Out, id, line string) {
 		return
 	}
 	o.Count("accepted")
+	if len(stream) <= 700 {
+		// the Open + Reader models over the RFC 1951 specification as the inflater
+		o.Emit(id+"a", "", "xa id="+id+"a stream="+hx(stream), hx(got)+":eof", "")
+	}
 	// C15: whatever xflate accepts, a DEFLATE decoder reads identically
 	std, unread, serr := inflateAll(stream)
 	if serr != nil || unread != 0 || !bytes.Equal(std, got) {
-		o.Violate("C15", fmt.Sprintf("xflate.Reader accepted %d bytes and served %d; compress/flate: err=%v unread=%d out=%d equal=%v", len(stream), len(got), serr, unread, len(std), bytes.Equal(std, got)), "accept-not-deflate", line)
+		sig := "accept-not-deflate"
+		// D10 shape: some non-footer chunk holds a final-block header. Such a chunk
+		// followed by an empty NON-final stored block does not leave the inflater
+		// waiting for the next block header with the same output.
+		recs := xr.VerifRecords()
+		var prev int64
+		for j, rec := range recs {
+			if j+1 < len(recs) && rec.Type == 1 && prev <= rec.CompOffset && rec.CompOffset <= int64(len(stream)) {
+				chunk := stream[prev:rec.CompOffset]
+				want, _ := chunkRaw(chunk)
+				out, unread2, err2 := inflateAll(append(append([]byte{}, chunk...), 0, 0, 0, 0xff, 0xff))
+				if !(err2 == io.ErrUnexpectedEOF && unread2 == 0 && len(out) == want) {
+					sig = "final-block-in-chunk"
+				}
+			}
+			prev = rec.CompOffset
+		}
+		o.Count("c15-" + sig)
+		o.Violate("C15", fmt.Sprintf("xflate.Reader accepted %d bytes and served %d; compress/flate: err=%v unread=%d out=%d equal=%v", len(stream), len(got), serr, unread, len(std), bytes.Equal(std, got)), sig, line)
 	}
 	if want, ok := kv["plain"]; ok && !bytes.Equal(unhx(want), got) {
 		o.Violate("C05", "accepted stream served different data than was written", "served-differs", line)
@@ -229,12 +251,86 @@ func genXO(r *Rand, tier string, emit func(string)) {
 		}
 		e(append(append(append([]byte{}, body...), idx...), foot...))
 	}
+	// crafted chunks with an index that agrees with what the per-chunk inflater yields
+	q := 1500
+	if thorough {
+		q = 30000
+	}
+	for i := 0; i < q; i++ {
+		nch := 1 + r.Intn(3)
+		var body []byte
+		var recs []idxRec
+		var totC, totR uint64
+		for c := 0; c < nch; c++ {
+			chunk := craftChunk(r)
+			raw, ok := chunkRaw(chunk)
+			if !ok && r.Intn(4) != 0 {
+				c--
+				continue
+			}
+			body = append(body, chunk...)
+			recs = append(recs, idxRec{uint64(len(chunk)), uint64(raw)})
+			totC += uint64(len(chunk))
+			totR += uint64(raw)
+		}
+		idx := metaStream(buildIndex(0, recs, uint64(len(recs)), totC, totR, false, 0), 1)
+		e(append(append(append([]byte{}, body...), idx...), buildFooter(uint64(len(idx)))...))
+	}
+}
+
+// craftChunk builds chunk bytes from DEFLATE fragments the Writer never emits:
+// final blocks that run into the end block chunkReader appends, stored blocks
+// that are longer than the chunk, junk that ends in the sync marker.
+func craftChunk(r *Rand) []byte {
+	stored := func(final bool, data []byte, declared int) []byte {
+		h := byte(0)
+		if final {
+			h = 1
+		}
+		return append([]byte{h, byte(declared), byte(declared >> 8), ^byte(declared), ^byte(declared >> 8)}, data...)
+	}
+	sync := []byte{0, 0, 0xff, 0xff}
+	var b []byte
+	for k := r.Intn(3); k > 0; k-- { // complete non-final stored blocks first
+		d := r.Bytes(r.Intn(12))
+		b = append(b, stored(false, d, len(d))...)
+	}
+	switch r.Intn(8) {
+	case 0, 1: // final stored block swallowing exactly the five end-block bytes
+		d := append(r.Bytes(r.Intn(6)), sync...)
+		b = append(b, stored(true, d, len(d)+5)...)
+	case 2: // final stored block swallowing 0..9 bytes
+		d := append(r.Bytes(r.Intn(6)), sync...)
+		b = append(b, stored(true, d, len(d)+r.Intn(10))...)
+	case 3: // non-final stored block longer than the chunk
+		d := append(r.Bytes(r.Intn(6)), sync...)
+		b = append(b, stored(false, d, len(d)+r.Intn(12))...)
+	case 4: // final dynamic block running through the end block
+		b = append(b, 237, 210, 1, 161, 29, 65, 16, 4, 161, 234, 217, 123, 63, 254, 29, 199, 8, 104, 32, 0, 0, 255, 255)
+	case 5: // fixed-Huffman bits (final or not) then the marker
+		b = append(b, byte(2|r.Intn(2))|byte(r.Intn(32))<<3)
+		b = append(b, r.Bytes(r.Intn(8))...)
+		b = append(b, sync...)
+	case 6: // a proper chunk: sync flush of nothing
+		b = append(b, 0)
+		b = append(b, sync...)
+	default: // junk ending in the marker
+		b = append(b, r.Bytes(1+r.Intn(10))...)
+		b = append(b, sync...)
+	}
+	return b
+}
+
+// chunkRaw is what an inflater yields on chunk ++ endBlock, as xflate.Reader runs it.
+func chunkRaw(chunk []byte) (int, bool) {
+	out, unread, err := inflateAll(append(append([]byte{}, chunk...), xfEndBlock...))
+	return len(out), err == nil && unread == 0
 }
 
 func init() {
 	register(&Family{
 		Name: "xo",
-		Rule: "xflate.NewReader + ReadAll on arbitrary bytes: all strings <= 1 byte; index/footer-only streams declaring huge record counts; streams from the real Writer (random configuration and schedule) untouched and with bit flips (anywhere / in the tail), truncation, leading or trailing bytes, duplication, byte swaps, an early final bit, a replaced footer; genuine chunks followed by a re-encoded index and footer with a tampered record count, totals, record sizes (incl. <= 4), CRC, back size, final mode, record order, flag byte, and chunks with an embedded final bit. Oracle: accepted + fully read => compress/flate reads the same bytes identically. Non-trivial = accepted or longer than 20 bytes; distinct by stream",
+		Rule: "xflate.NewReader + ReadAll on arbitrary bytes: all strings <= 1 byte; index/footer-only streams declaring huge record counts; streams from the real Writer (random configuration and schedule) untouched and with bit flips (anywhere / in the tail), truncation, leading or trailing bytes, duplication, byte swaps, an early final bit, a replaced footer; genuine chunks followed by a re-encoded index and footer with a tampered record count, totals, record sizes (incl. <= 4), CRC, back size, final mode, record order, flag byte, and chunks with an embedded final bit; chunks crafted from DEFLATE fragments the Writer never emits (final stored / dynamic / fixed blocks running 0..9 bytes into the appended end block, over-long stored blocks, junk ending in the sync marker) under an index that agrees with the per-chunk inflater. Accepted streams of <= 700 bytes are also read by the Open+Reader models over the RFC 1951 specification (kind xa). Oracle: accepted + fully read => compress/flate reads the same bytes identically. Non-trivial = accepted or longer than 20 bytes; distinct by stream",
 		Gen:  genXO,
 		Exec: execXO,
 	})
